@@ -515,6 +515,24 @@ impl Check for C17 {
                 big_endian: rng.chance(1, 4),
                 sint_pkg_nr: rng.bool(),
             });
+            // one later transfer in four is a twin of the first: the same announcement (serial, name, size, package
+            // size and count - the same file image sent by another ECU or again after a reboot), other content
+            if i > 0 && rng.sub("twin").chance(1, 4) {
+                let mut tw = rng.sub("twin-data");
+                let first = transfers[0].clone();
+                let t = &mut transfers[i];
+                t.serial = first.serial;
+                t.name = first.name.clone();
+                t.pkg = first.pkg;
+                t.data = tw.bytes(first.data.len());
+                if (t.ecu, t.lifecycle) == (first.ecu, first.lifecycle) {
+                    if tw.bool() {
+                        t.ecu = (t.ecu + 1) % 3;
+                    } else {
+                        t.lifecycle += 1;
+                    }
+                }
+            }
             // distinct (ecu, lifecycle, serial)
             while transfers[..i].iter().any(|o: &Transfer| (o.ecu, o.lifecycle, o.serial) == (transfers[i].ecu, transfers[i].lifecycle, transfers[i].serial)) {
                 transfers[i].serial += 1;
@@ -672,7 +690,7 @@ impl Check for C17 {
         }
     }
     fn rule() -> &'static str {
-        "one run = one transfer configuration (1-3 concurrent senders with distinct ECU/lifecycle/serial, file sizes {1, b-1, b, b+1, k*b, random <= 64 KiB} x package sizes {1, 7, 10, 64, 1024, 4096, = file}, both byte orders, SINT/UINT package numbers, file names with directory parts, interleaving with unrelated traffic, auto-save directory pre-seeded with same base names as regular files or as dangling symbolic links pointing outside) for which EVERY single fault on the first transfer is enumerated (none, drop/duplicate adjacent/duplicate delayed/swap/resize of every package up to 24 packages, else 7 representative positions; drop announcement; drop end marker; duplicate announcement adjacent/delayed; duplicate end marker) while the other transfers carry a random single fault; complete transfers are saved manually (a third of them over an older, longer file at the target path) and compared; each (configuration, fault) is one evaluation; distinct = hash of the configuration"
+        "one run = one transfer configuration (1-3 concurrent senders with distinct ECU/lifecycle/serial (a later sender in four announces exactly what the first one does - same serial, name, size, package size - from another ECU or lifecycle, with other content), file sizes {1, b-1, b, b+1, k*b, random <= 64 KiB} x package sizes {1, 7, 10, 64, 1024, 4096, = file}, both byte orders, SINT/UINT package numbers, file names with directory parts, interleaving with unrelated traffic, auto-save directory pre-seeded with same base names as regular files or as dangling symbolic links pointing outside) for which EVERY single fault on the first transfer is enumerated (none, drop/duplicate adjacent/duplicate delayed/swap/resize of every package up to 24 packages, else 7 representative positions; drop announcement; drop end marker; duplicate announcement adjacent/delayed; duplicate end marker) while the other transfers carry a random single fault; complete transfers are saved manually (a third of them over an older, longer file at the target path) and compared; each (configuration, fault) is one evaluation; distinct = hash of the configuration"
     }
     fn assumptions() -> Vec<&'static str> {
         vec![
